@@ -15,6 +15,7 @@ statement).  Monitors, evaluated after every operation of every history:
   * eof / tell() agree with what was returned.
 """
 
+import asyncio
 import itertools
 import os
 import signal
@@ -41,6 +42,7 @@ K_OVERSIZE = 'asgi-stream-read-exceeds-size-on-oversized-chunk'
 K_TELL = 'asgi-stream-tell-counts-first-chunk-twice'
 K_EXH = 'asgi-stream-exhaust-position-beyond-content-length'
 K_ABANDON = 'asgi-stream-abandoned-iteration-forgets-final-event'
+K_INTR = 'asgi-stream-interrupted-read-drops-bytes-already-taken'
 
 ITER_CAP = 2000
 LOSS_KINDS = ('end-of-stream-before-whole-body', 'read-to-end-incomplete', 'eof-true-before-whole-body')
@@ -122,10 +124,22 @@ class ServerInput(W.FakeInput):
 
 
 class Ctx:
-    def __init__(self, hist, inp=None):
+    def __init__(self, hist, inp=None, fault=None):
         self.hist = hist
         self.inp = inp
         self.log = []
+        # ASGI only
+        self.fault = fault          # (j, 'raise' | 'cancel'): the j-th receive() awaited by the stream is interrupted
+        self.fault_step = None      # history step during which the fault fired
+        self.recv_calls = 0
+        self.step = -1
+        self.deliv = []             # (step, body length) of every event handed to the stream after the first one
+        self.it = None              # the iterator stepped by ('anext',) operations
+        self.gave_up = False
+
+
+class ReceiveFault(Exception):
+    """Injected: the server's receive() callable fails (connection error while waiting for the next event)."""
 
 
 CTX = [None]
@@ -365,58 +379,103 @@ def _wsgi_case(rec, cfg, hist):
 
 # ------------------------------------------------------------------ ASGI side
 
-async def a_apply(s, op, slot):
+async def _a_do(s, op, slot):
     k = op[0]
-    try:
-        if k == 'read':
-            return ('ok', await (s.read() if op[1] is None else s.read(op[1])))
-        if k == 'readall':
-            return ('ok', await s.readall())
-        if k == 'iter':
-            out = []
-            async for chunk in s:
-                out.append(chunk)
-                if len(out) > ITER_CAP:
-                    return ('runaway', out[:3])
-            return ('ok', out)
-        if k == 'iterk':
-            # iteration abandoned after at most op[1] chunks; op[2]: what the application does next
-            #   'break'   leaves the `async for` with break (the generator stays suspended until it is finalized)
-            #   'none'    closes the iterator explicitly (aclose) and does nothing else
-            #   'exhaust' / 'close'  aclose, then stream.exhaust() / stream.close() (the documented clean-up)
-            out, ended = [], False
-            if op[2] == 'break':
-                if op[1] > 0:
-                    ended = True
-                    async for chunk in s:
-                        out.append(chunk)
-                        if len(out) >= op[1]:
-                            ended = False
-                            break
-            else:
-                it = s.__aiter__()
-                for _ in range(op[1]):
-                    try:
-                        out.append(await it.__anext__())
-                    except StopAsyncIteration:
-                        ended = True
+    if k == 'read':
+        return ('ok', await (s.read() if op[1] is None else s.read(op[1])))
+    if k == 'readall':
+        return ('ok', await s.readall())
+    if k == 'iter':
+        out = slot[1] = []
+        async for chunk in s:
+            out.append(chunk)
+            if len(out) > ITER_CAP:
+                return ('runaway', out[:3])
+        return ('ok', out)
+    if k == 'anext':
+        # one step of an iterator that stays alive between operations (`async for` whose body does other things)
+        c = CTX[0]
+        if c.it is None:
+            c.it = s.__aiter__()
+        try:
+            return ('ok', await c.it.__anext__())
+        except StopAsyncIteration:
+            return ('stop',)
+        except BaseException:
+            c.it = None             # refused or interrupted: that iterator object is finished
+            raise
+    if k == 'iterk':
+        # iteration abandoned after at most op[1] chunks; op[2]: what the application does next
+        #   'break'   leaves the `async for` with break (the generator stays suspended until it is finalized)
+        #   'none'    closes the iterator explicitly (aclose) and does nothing else
+        #   'exhaust' / 'close'  aclose, then stream.exhaust() / stream.close() (the documented clean-up)
+        out, ended = [], False
+        slot[1] = (out, False, 'iterating')
+        if op[2] == 'break':
+            if op[1] > 0:
+                ended = True
+                async for chunk in s:
+                    out.append(chunk)
+                    if len(out) >= op[1]:
+                        ended = False
                         break
-                await it.aclose()
-            slot[1] = (list(out), ended)
-            if op[2] == 'exhaust':
-                await s.exhaust()
-            elif op[2] == 'close':
-                s.close()
-            return ('ok', (out, ended))
-        if k == 'exhaust':
+        else:
+            it = s.__aiter__()
+            for _ in range(op[1]):
+                try:
+                    out.append(await it.__anext__())
+                except StopAsyncIteration:
+                    ended = True
+                    break
+            await it.aclose()
+        slot[1] = (list(out), ended, 'clean-up')
+        if op[2] == 'exhaust':
             await s.exhaust()
-            return ('ok', None)
-        if k == 'close':
+        elif op[2] == 'close':
             s.close()
-            return ('ok', None)
+        return ('ok', (out, ended))
+    if k == 'exhaust':
+        await s.exhaust()
+        return ('ok', None)
+    if k == 'close':
+        s.close()
+        return ('ok', None)
+    raise ValueError(op)
+
+
+async def a_apply(s, op, slot):
+    c = CTX[0]
+    try:
+        if c.fault is not None and c.fault[1] == 'cancel':
+            # the application bounds every operation with a timeout (virtual time): an operation parked in
+            # receive() is cancelled there (CancelledError thrown at the await) and the app sees TimeoutError
+            return await asyncio.wait_for(_a_do(s, op, slot), 10)
+        return await _a_do(s, op, slot)
     except Exception as ex:  # noqa
         return _exc(ex)
-    raise ValueError(op)
+
+
+async def faulting_asgi_app(scope, receive, send):
+    """The real app behind a receive() that counts what the stream is given and injects one fault."""
+    c = CTX[0]
+    state = {'first': True, 'fired': False}
+
+    async def recv():
+        if state['first']:
+            state['first'] = False
+            return await receive()              # falcon.asgi.App takes the first event itself
+        c.recv_calls += 1
+        if c.fault is not None and not state['fired'] and c.recv_calls == c.fault[0]:
+            state['fired'] = True
+            c.fault_step = c.step
+            if c.fault[1] == 'raise':
+                raise ReceiveFault('receive() failed')
+            await asyncio.get_running_loop().create_future()      # nothing arrives: parked until cancelled
+        ev = await receive()
+        c.deliv.append((c.step, len(ev.get('body', b'')) if ev.get('type') == 'http.request' else 0))
+        return ev
+
+    await asgi_app()(scope, recv, send)
 
 
 def _obs(s):
@@ -436,10 +495,28 @@ class AsgiResource:
         for i, op in enumerate(c.hist):
             s = req.stream if i % 2 == 0 else req.bounded_stream     # one object, looked up again every time
             slot = ['started', None]                                  # operation started (+ partial progress)
+            c.step = i
             c.log.append(slot)
             r = await a_apply(s, op, slot)
-            c.log[-1] = (r, _obs(s))
+            c.log[-1] = (r, _obs(s), slot[1])
+            if r[0] == 'exc' and r[1].startswith('TimeoutError') and c.fault_step != i:
+                c.gave_up = True        # a real park on receive() ran into the application's timeout: it gives up
+                break
         resp.data = b'ok'
+
+
+def legal_asgi(hist):
+    """read()/readall()/a second iteration are never issued while the stepped iterator is in progress: once
+    anything but anext/exhaust/close follows an ('anext',), that iterator counts as abandoned and is not resumed."""
+    live = abandoned = False
+    for op in hist:
+        if op[0] == 'anext':
+            if abandoned:
+                return False
+            live = True
+        elif live and op[0] not in ('exhaust', 'close'):
+            abandoned = True
+    return True
 
 
 def _final_event_body(events):
@@ -465,9 +542,9 @@ def _abandoned_on_final_event(m, events, cl, out, ended):
 
 
 def _asgi_wit(cfg, hist):
-    events, clh, cl, tag = cfg
+    events, clh, cl, tag = cfg[:4]
     return {'stack': 'asgi', 'events': [dict(e) for e in events], 'content_length': clh, 'script': tag,
-            'history': list(hist)}
+            'fault': cfg[4] if len(cfg) > 4 else None, 'history': list(hist)}
 
 
 def asgi_case(rec, cfg, hist):
@@ -476,11 +553,12 @@ def asgi_case(rec, cfg, hist):
 
 
 def _asgi_case(rec, cfg, hist):
-    events, clh, cl, tag = cfg
+    events, clh, cl, tag = cfg[:4]
+    fault = cfg[4] if len(cfg) > 4 else None
     hist = list(hist) + [('read', None)]
     scope = A.make_scope('POST', '/c07', headers=[('content-length', clh)] if clh is not None else [])
-    ctx = CTX[0] = Ctx(hist)
-    res = A.run_asgi_http(asgi_app(), scope, events=events, max_steps=20000)
+    ctx = CTX[0] = Ctx(hist, fault=fault)
+    res = A.run_asgi_http(faulting_asgi_app, scope, events=events, max_steps=20000)
     wit0 = _asgi_wit(cfg, hist)
     wire, ended = asgi_wire(events)
     # ---- classes
@@ -517,7 +595,8 @@ def _asgi_case(rec, cfg, hist):
                                                      receive_calls=res.receive_calls))
         raise StopCheck()
     parked = res.outcome in ('blocked', 'steps') and len(done) < len(hist)
-    if not parked and (res.outcome != 'done' or res.status != 200 or len(done) != len(hist) or res.problems):
+    if not parked and (res.outcome != 'done' or res.status != 200 or res.problems or
+                       (len(done) != len(hist) and not ctx.gave_up)):
         rec.violation('app-failed', dict(wit0, status=res.status, outcome=res.outcome, exc=repr(res.exc),
                                          problems=res.problems[:3], steps_done=len(done)))
         return False
@@ -529,22 +608,90 @@ def _asgi_case(rec, cfg, hist):
     closed = False
     abandoned = False       # an iteration was left before it finished: a new iteration may be refused
     armed = False           # ... and it was left right after the final event's body (classifier of K_ABANDON)
-    for i, (op, (r, (eof, tell))) in enumerate(zip(hist, done)):
+    armed_live = False      # the stepped iterator is suspended right after the final event's body
+    intr_lost = False       # classifier of K_INTR: an interrupted read had already taken bytes into a local list
+    recv_bytes = len(first)  # body bytes the server has handed over so far
+    if fault is not None:
+        rec.count('class.asgi.fault.' + fault[1])
+
+    def report_parked(i, outcome, prog=None):
+        op = hist[i]
+        arm = armed or armed_live
+        if op[0] == 'iterk' and op[2] == 'exhaust' and isinstance(prog, tuple):
+            # parked in the exhaust() that follows the abandoned iteration: judge the chunks it handed out first
+            out, ended_it = prog[:2]
+            for kind, fatal, detail in m.take(b''.join(out), None, empty_ok=True):
+                key = K_INTR if (intr_lost and (kind in LOSS_KINDS or kind == 'returned-bytes-not-next-in-body')) \
+                    else None
+                _report(rec, kind, dict(wit0, step=i, op=op, got=out, detail=detail), key)
+                return False
+            arm = arm or _abandoned_on_final_event(m, events, cl, out, ended_it)
+        key = K_ABANDON if (arm and outcome == 'blocked' and not closed) else None
+        rec.violation('blocked-on-receive-with-nothing-more-to-come',
+                      dict(wit0, step=i, op=op, outcome=outcome, receive_calls=res.receive_calls,
+                           receive_after_script=res.receive_after_script), known_key=key)
+        return False
+
+    for i, (op, (r, (eof, tell), prog)) in enumerate(zip(hist, done)):
         findings = []          # (kind, fatal, detail, key)
         k = op[0]
         rec.count('mon.asgi.op.' + k)
         got = None
         reported_end = False
-        if r[0] == 'exc':
+        got_bytes = sum(n for st, n in ctx.deliv if st == i)
+        buffered_before = 0 if m.discarded else max(min(recv_bytes, m.total) - m.cur.pos, 0)
+        recv_bytes += got_bytes
+        interrupted = (r[0] == 'exc' and ctx.fault_step == i and
+                       r[1].startswith(('ReceiveFault', 'TimeoutError', 'CancelledError')))
+        if interrupted:
+            # the await on receive() inside this operation was interrupted; nothing (more) was returned by it
+            got = r[1]
+            rec.count('fault.asgi.interrupted.' + k)
+            if k in ('read', 'readall'):
+                unsized = k == 'readall' or op[1] is None or op[1] == -1
+                if got_bytes + (buffered_before if unsized else 0) > 0:
+                    intr_lost = True        # bytes were already moved into the local chunk list (known finding)
+                    rec.count('fault.asgi.interrupted_with_bytes_in_flight')
+                else:
+                    rec.count('fault.asgi.interrupted_before_anything_was_taken')
+            elif k in ('iter', 'iterk', 'anext'):
+                out = prog[0] if isinstance(prog, tuple) else (prog or [])
+                findings += [f + (None,) for f in m.take(b''.join(out), None, empty_ok=True)]
+                armed_live = False
+                if isinstance(prog, tuple) and prog[2] == 'clean-up':
+                    # the iteration part was over; the exhaust() that followed it was interrupted
+                    abandoned = abandoned or bool(out and not prog[1])
+                    m.cur.pos = max(m.cur.pos, min(recv_bytes, m.total))
+                    m.discarded = True
+                else:
+                    abandoned = True        # the generator is finished by the exception
+            elif k == 'exhaust':
+                # what had been handed over was discarded; the stream continues behind it
+                m.cur.pos = max(m.cur.pos, min(recv_bytes, m.total))
+                m.discarded = True
+        elif r[0] == 'exc' and fault is not None and fault[1] == 'cancel' and r[1].startswith('TimeoutError') \
+                and not closed:
+            # under the application's timeout a park on receive() surfaces as TimeoutError: same as 'blocked'
+            return report_parked(i, 'blocked', prog)
+        elif r[0] == 'exc':
             got = r[1]
             if closed:
                 rec.count('asgi.raised_after_close')
-            elif abandoned and k in ('iter', 'iterk') and r[1].startswith('OperationNotAllowed'):
+            elif (abandoned or ctx.it is not None) and k in ('iter', 'iterk', 'anext') and \
+                    r[1].startswith('OperationNotAllowed'):
                 rec.count('asgi.iteration_refused_after_abandoned_iteration')
             else:
                 findings.append(('operation-raised', True, r[1], None))
         elif r[0] == 'runaway':
             findings.append(('iteration-does-not-terminate', True, r[1], None))
+        elif r[0] == 'stop':
+            got = 'StopAsyncIteration'
+            rec.count('branch.asgi.anext_stop')
+            armed_live = False
+            if not closed:
+                fs = m.end_reported()
+                findings += [f + (None,) for f in fs]
+                reported_end = not fs
         else:
             got = r[1]
             if k in ('read', 'readall'):
@@ -566,6 +713,12 @@ def _asgi_case(rec, cfg, hist):
                 findings += [f + (None,) for f in fs]
                 reported_end = not fs
                 rec.count('asgi.iter_chunks', len(got))
+            elif k == 'anext':
+                fs = m.take(got, None)
+                findings += [f + (None,) for f in fs]
+                armed_live = not fs and _abandoned_on_final_event(m, events, cl, [got], False)
+                if i > 0 and hist[i - 1][0] in ('exhaust', 'close'):
+                    rec.count('branch.asgi.iterator_resumed_after_exhaust_or_close')
             elif k == 'iterk':
                 out, ended_it = got
                 fs = m.take(b''.join(out), None, empty_ok=True)
@@ -590,6 +743,8 @@ def _asgi_case(rec, cfg, hist):
                 reported_end = True
             elif k == 'close':
                 closed = True
+        if r[0] == 'stop' and i > 0 and hist[i - 1][0] in ('exhaust', 'close'):
+            rec.count('branch.asgi.iterator_resumed_after_exhaust_or_close')
         if closed:
             findings = [f for f in findings if f[0] not in LOSS_KINDS]
         fatal_data = any(f[1] for f in findings)
@@ -645,6 +800,8 @@ def _asgi_case(rec, cfg, hist):
             rec.count('branch.asgi.op_after_end')
         stop = False
         for kind, fatal, detail, key in findings:
+            if key is None and intr_lost and (kind in LOSS_KINDS or kind == 'returned-bytes-not-next-in-body'):
+                key = K_INTR
             known = _report(rec, kind, dict(wit0, step=i, op=op, got=got, eof=eof, tell=tell, detail=detail), key)
             if not known or fatal:
                 stop = True
@@ -653,18 +810,8 @@ def _asgi_case(rec, cfg, hist):
     if parked:
         # the application is parked on receive() although the script has nothing more to deliver
         i = len(done)
-        op = hist[i]
         slot = ctx.log[i] if i < len(ctx.log) else None
-        if op[0] == 'iterk' and op[2] == 'exhaust' and isinstance(slot, list) and slot[1] is not None:
-            out, ended_it = slot[1]
-            fs = m.take(b''.join(out), None, empty_ok=True)
-            if not fs:
-                armed = armed or _abandoned_on_final_event(m, events, cl, out, ended_it)
-        key = K_ABANDON if (armed and res.outcome == 'blocked' and not closed) else None
-        rec.violation('blocked-on-receive-with-nothing-more-to-come',
-                      dict(wit0, step=i, op=op, outcome=res.outcome, receive_calls=res.receive_calls,
-                           receive_after_script=res.receive_after_script), known_key=key)
-        return False
+        return report_parked(i, res.outcome, slot[1] if isinstance(slot, list) else None)
     return True
 
 
@@ -703,11 +850,18 @@ W_TRAILING = b'XY\nZ'
 
 A_OPS = [('read', None), ('read', -1), ('read', 0), ('read', 1), ('read', 2), ('read', 100), ('readall',),
          ('iter',), ('iterk', 1, 'exhaust'), ('iterk', 1, 'close'), ('iterk', 1, 'none'), ('iterk', 1, 'break'),
-         ('exhaust',), ('close',)]
+         ('anext',), ('exhaust',), ('close',)]
 A_OPS_PAIRS = [('read', None), ('read', 0), ('read', 1), ('read', 2), ('read', 100), ('iter',), ('iterk', 1, 'exhaust'),
-               ('iterk', 1, 'none'), ('exhaust',), ('close',)]
+               ('iterk', 1, 'none'), ('anext',), ('exhaust',), ('close',)]
 A_OPS_SMALL = [('read', 1), ('read', 2), ('read', 3), ('readall',), ('iter',), ('exhaust',), ('iterk', 2, 'exhaust'),
-               ('iterk', 1, 'break')]
+               ('iterk', 1, 'break'), ('anext',)]
+# operations whose await on receive() gets interrupted (fault part), and what the application does afterwards
+A_OPS_FAULT = [('read', 1), ('read', 2), ('read', 100), ('read', None), ('readall',), ('iter',), ('anext',),
+               ('exhaust',), ('iterk', 1, 'none')]
+# something else is done while the stepped iterator is suspended, then the same iterator is resumed
+A_SUSPENDED = [pre + (('anext',),) * a + (x, ('anext',)) + post
+               for pre in ((), (('read', 1),)) for a in (1, 2) for x in (('exhaust',), ('close',))
+               for post in ((), (('anext',),))]
 A_BODIES = [b'', b'a', b'ab\n', b'abcde']
 
 
@@ -912,11 +1066,28 @@ def random_asgi(rng):
             ops.append(('iter',))
         elif r < 0.86:
             ops.append(('iterk', rng.randint(0, 3), rng.choice(['exhaust', 'close', 'none', 'none', 'break', 'break'])))
-        elif r < 0.95:
+        elif r < 0.93:
             ops.append(('exhaust',))
+        elif r < 0.97:
+            ops.append(('anext',))
         else:
             ops.append(('close',))
-    return (events, clh, cl, tag), tuple(ops)
+    if rng.random() < 0.3:
+        # a stretch of stepped iteration with clean-up calls in between
+        at = rng.randint(0, len(ops))
+        ops[at:at] = [rng.choice([('anext',), ('anext',), ('exhaust',), ('close',)]) for _ in range(rng.randint(2, 5))]
+    while not legal_asgi(ops):
+        live = False
+        for j, op in enumerate(ops):
+            if op[0] == 'anext':
+                live = True
+            elif live and op[0] not in ('exhaust', 'close'):
+                ops[j:] = [o for o in ops[j:] if o[0] != 'anext']
+                break
+    fault = None
+    if rng.random() < 0.35:
+        fault = (rng.randint(1, 4), rng.choice(['raise', 'cancel']))
+    return (events, clh, cl, tag, fault), tuple(ops)
 
 
 # ------------------------------------------------------------------ run
@@ -942,6 +1113,12 @@ def run(rec):
                        'precede an iteration); a new iteration after an abandoned one may be refused with OperationNotAllowed',
                        'a PEP 3333 server normally blocks until n bytes or EOF; servers returning short reads are a '
                        'separately reported class',
+                       'fault model: one await on receive() fails with an exception or is cancelled by the application\'s '
+                       'timeout while parked; the event it waited for is delivered to the next receive(); afterwards the '
+                       'application keeps using the stream. An interrupted read returned nothing; an interrupted exhaust '
+                       'discarded what had been handed over',
+                       'the stepped iterator (anext) is only interleaved with exhaust()/close()/anext; any other operation '
+                       'abandons it',
                        'invalid / negative Content-Length values and read sizes < -1 are outside the statement',
                        'after close() only the no-over-read and server-side monitors apply']
     quick = rec.tier == 'quick'
@@ -965,6 +1142,8 @@ def run(rec):
                 rec.case(('w', cfg, h))
     # ---------------- ASGI bounded-exhaustive
     HA = 2 if quick else 3
+    fault_hists = [h for L in (1, 2) for h in itertools.product(A_OPS_FAULT, repeat=L) if legal_asgi(h)]
+    fault_js = (1, 2) if quick else (1, 2, 3)
     for body in A_BODIES:
         comps = compositions(len(body), with_empty=True)
         if len(body) >= 5:
@@ -973,31 +1152,52 @@ def run(rec):
         hs += list(itertools.product(A_OPS_PAIRS if quick else A_OPS, repeat=2))
         if not quick:
             hs += list(itertools.product(A_OPS_PAIRS, repeat=3))
-        small_hists = list(itertools.product(A_OPS_SMALL, repeat=HA + 1))
+        hs = [h for h in hs if legal_asgi(h)] + A_SUSPENDED
+        small_hists = [h for h in itertools.product(A_OPS_SMALL, repeat=HA + 1) if legal_asgi(h)]
+        fi = 0
+        singles = [h for h in hs if len(h) <= 1] + A_SUSPENDED
         for ci, cfg in enumerate(asgi_configs(body, comps)):
-            for h in hs:
+            for h in (singles if (quick and len(body) >= 5 and ci % 2) else hs):
                 idx += 1
                 if idx % rec.nshards != rec.shard:
                     continue
                 asgi_case(rec, cfg, h)
                 rec.case(('a', cfg, h) if nontrivial(h) else None)
-            if ci % (12 if quick else 24) == 0:
+            if ci % 24 == 0:
                 for h in small_hists:
                     idx += 1
                     if idx % rec.nshards != rec.shard:
                         continue
                     asgi_case(rec, cfg, h)
                     rec.case(('a', cfg, h))
+            # fault part: the j-th receive() awaited by the stream fails (every script with >= 3 events; quick: every
+            # fourth) or is cancelled while parked (every fourth of those), then the application carries on
+            if len(cfg[0]) >= 3:
+                fi += 1
+                if quick and fi % 4:
+                    continue
+                modes = ('raise', 'cancel') if fi % (16 if quick else 4) == 0 else ('raise',)
+                for mode in modes:
+                    for j in fault_js:
+                        fcfg = cfg + ((j, mode),)
+                        for h in fault_hists:
+                            idx += 1
+                            if idx % rec.nshards != rec.shard:
+                                continue
+                            asgi_case(rec, fcfg, h)
+                            rec.case(('a', fcfg, h))
     rec.exhaustive = True
     if rec.shard == 0:
         rec.note('exhaustive within bounds: WSGI %d bodies x Content-Length classes x server styles %r, histories <= %d over %d '
                  'op shapes + length %d over %d shapes; ASGI %d bodies, all chunkings (every %s for the 5-byte body) x all '
                  'script endings x Content-Length classes, single operations over %d shapes, pairs over %d shapes%s, '
-                 'length %d over %d shapes on every %dth script'
+                 'length %d over %d shapes on every %dth script, %d histories with an operation issued while the stepped '
+                 'iterator is suspended; fault part: receive() number j in %r interrupted (raise; cancel on a subset) x '
+                 'histories <= 2 over %d shapes on scripts with >= 3 events'
                  % (len(W_BODIES), shorts, HW, len(W_OPS), HW + 1, len(W_OPS_SMALL), len(A_BODIES),
                     'third' if quick else 'second', len(A_OPS), len(A_OPS_PAIRS if quick else A_OPS),
                     '' if quick else ', triples over %d shapes' % len(A_OPS_PAIRS),
-                    HA + 1, len(A_OPS_SMALL), 12 if quick else 24))
+                    HA + 1, len(A_OPS_SMALL), 24, len(A_SUSPENDED), fault_js, len(A_OPS_FAULT)))
     # ---------------- random
     rng = rec.rng
     k = 0
@@ -1026,7 +1226,12 @@ def run(rec):
                     ('class.wsgi.pipelined_bytes_after_body', 500),
                     ('mon.asgi.op.read', 2000), ('mon.asgi.op.readall', 200), ('mon.asgi.op.iter', 200),
                     ('mon.asgi.op.iterk', 100), ('branch.asgi.iteration_abandoned', 300),
-                    ('branch.asgi.iteration_abandoned_after_reads', 100), ('mon.asgi.op.exhaust', 200), ('mon.asgi.liveness', 2000),
+                    ('branch.asgi.iteration_abandoned_after_reads', 100), ('mon.asgi.op.anext', 300),
+                    ('branch.asgi.iterator_resumed_after_exhaust_or_close', 100),
+                    ('class.asgi.fault.raise', 500), ('class.asgi.fault.cancel', 100),
+                    ('fault.asgi.interrupted.read', 200), ('fault.asgi.interrupted.exhaust', 50),
+                    ('fault.asgi.interrupted.iter', 20), ('fault.asgi.interrupted.anext', 20),
+                    ('fault.asgi.interrupted_before_anything_was_taken', 50), ('mon.asgi.op.exhaust', 200), ('mon.asgi.liveness', 2000),
                     ('mon.asgi.eof', 2000), ('mon.asgi.tell', 2000),
                     ('class.asgi.cl.absent', 50), ('class.asgi.cl.exact', 50), ('class.asgi.cl.short', 50),
                     ('class.asgi.cl.long', 50), ('class.asgi.ended_by.disconnect', 100),
@@ -1066,7 +1271,9 @@ def replay(rec, w):
         ok = wsgi_case(rec, cfg, hist)
     else:
         clh = wit['content_length']
-        cfg = (list(wit['events']), clh, int(clh) if clh else None, wit.get('script', 'replay'))
+        fault = wit.get('fault')
+        cfg = (list(wit['events']), clh, int(clh) if clh else None, wit.get('script', 'replay'),
+               tuple(fault) if fault else None)
         ok = asgi_case(rec, cfg, hist)
     print('replay: case', 'passed' if ok else 'failed again')
     rec.case(('replay', 1))
